@@ -149,6 +149,9 @@ func buildTree(par []int, aliasMask, optMask, clash int, sameName bool, exec boo
 	if variant == 1 {
 		dd.Options = flags.PassAfterNonOption
 	}
+	if variant == 3 {
+		dd.Options = flags.HelpFlag
+	}
 	d := dd.Finish()
 	td := &treeDecl{d: d, cmds: cmds}
 	seen := map[string]bool{}
@@ -174,6 +177,9 @@ func buildTree(par []int, aliasMask, optMask, clash int, sameName bool, exec boo
 	if variant == 2 {
 		add("-o", cmds[0].Name)
 		add("--out", cmds[n-1].Name)
+	}
+	if variant == 3 {
+		add("--help")
 	}
 	return td
 }
@@ -223,7 +229,8 @@ func init() {
 		mode := c.Choose(4) // 0 struct tags, 1 API, 2 API with executable (Commander) commands, 3 API with the parser's flag in a group added late
 		c08LateGroup = mode == 3
 		// 1: PassAfterNonOption is set; 2: the parser has a string option whose separate argument is spelled like a command name
-		c08Variant = c.Deviate(3)
+		// 3: HelpFlag is set and --help is among the tokens: the chain named before the request stays the active one
+		c08Variant = c.Deviate(4)
 		// thorough: sequences of 4 tokens go with the plain trees only (no declaration deviation), sequences of <= 3 with <= 2 deviations
 		deep := c.Thorough && c.Bool()
 		td, key, ok := build(c, mode == 2)
@@ -301,6 +308,9 @@ func init() {
 			c.Fail("setup-error", b.Err.Error())
 			return
 		}
+		if mode == 1 && n == 0 && c08Variant == 0 {
+			c08FailedAdd(c, td)
+		}
 		rr := runParser(b, cfg, argv, runOpts{})
 		if rr.Panic != nil {
 			c.Fail("panic|"+rr.PanicSite, fmt.Sprint(rr.Panic))
@@ -327,6 +337,13 @@ func init() {
 			return
 		}
 		switch res.Fault.Type {
+		case flags.ErrHelp:
+			c.Hit("help-request")
+			if fe, ok := rr.Err.(*flags.Error); !ok || fe.Type != flags.ErrHelp {
+				c.Fail("help-request-not-answered", fmt.Sprint(rr.Err))
+			} else if !sameStrings(got, chainNames(res.Chain)) {
+				c.Fail("active-chain-differs|after-help-request", map[string]interface{}{"want": chainNames(res.Chain), "got": got})
+			}
 		case flags.ErrCommandRequired, flags.ErrUnknownCommand:
 			c.Hit("command-fault")
 			if ok, why := faultMatches(rr.Err, res.Fault); !ok {
@@ -350,7 +367,7 @@ func init() {
 			}
 			return 1
 		},
-		Rule: "every command tree with <= 4 commands and depth <= 3 (all 32 parent arrays) plus the chain of depth 4, one counter flag per node; deviations from the plain tree (bounded: 1 quick / 2 thorough): PassAfterNonOption set, a string option of the parser given a command name as its separate argument, aliases on <= 2 nodes, " +
+		Rule: "every command tree with <= 4 commands and depth <= 3 (all 32 parent arrays) plus the chain of depth 4, one counter flag per node; deviations from the plain tree (bounded: 1 quick / 2 thorough): PassAfterNonOption set, a string option of the parser given a command name as its separate argument, HelpFlag set with --help among the tokens (the chain named so far stays active), a command whose AddCommand failed (must not exist), aliases on <= 2 nodes, " +
 			"subcommands-optional on any subset of inner nodes incl. the parser, one node's flag letter clashing with its parent's or grandparent's, a deeper command reusing a top-level command's name, any subset of commands hidden; " +
 			"x {struct tags, API, API with executable commands, API where the parser's flag sits in a group that is added after the commands and after a parse that selected each of them} x every sequence of <= 3 tokens (thorough: 4 tokens on the trees without deviation, all four build modes) over all names, aliases, every node's flag, one long flag and an unknown word, plus beyond that bound [unit, full path to any node, unit]; oracle = CLM active chain, scoping (which counter was incremented), " +
 			"remaining arguments and ErrCommandRequired / ErrUnknownCommand",
@@ -404,4 +421,33 @@ func describeTree(c *decl.Cmd) interface{} {
 		m["commands"] = subs
 	}
 	return m
+}
+
+// c08FailedAdd: a command whose AddCommand returned an error does not exist: its name is a word like any unknown one.
+func c08FailedAdd(c *explore.Ctx, td *treeDecl) {
+	type bad struct {
+		X bool `short:"xx"` // a short name of two characters: the declaration is rejected
+	}
+	run := func(add bool, word string) (string, []string) {
+		b := td.d.BuildAPI()
+		if b.Err != nil {
+			return "setup-error", nil
+		}
+		if add {
+			if _, err := b.Parser.AddCommand("zzbad", "", "", &bad{}); err == nil {
+				return "harness: the faulty command was accepted", nil
+			}
+		}
+		rr := runParser(b, &ref.Config{D: td.d}, []string{word}, runOpts{})
+		if rr.Panic != nil {
+			return "panic: " + fmt.Sprint(rr.Panic), nil
+		}
+		return errType(rr.Err), b.ActiveChain()
+	}
+	e1, c1 := run(false, "zzbad")
+	e2, c2 := run(true, "zzbad")
+	c.Hit("failed-AddCommand")
+	if e1 != e2 || !sameStrings(c1, c2) {
+		c.Fail("rejected-command-exists", map[string]interface{}{"without_the_failed_AddCommand": []interface{}{e1, c1}, "after_it": []interface{}{e2, c2}})
+	}
 }
